@@ -66,6 +66,8 @@ def check_blocks(P, c, blocks):
             if n not in c2:
                 return {"problem": "block node not in the fan-in-limited circuit", "node": n}
             if n not in ins:
+                if len(b.fanin(n)) > 2:
+                    return {"problem": "a gate of a supergate has more than two inputs (the decomposition works on the fan-in-limited circuit)", "node": n, "fanin": sorted(b.fanin(n))}
                 if b.type(n) != c2.type(n):
                     return {"problem": "block node type differs from the circuit", "node": n, "type": b.type(n), "expected": c2.type(n)}
                 if b.fanin(n) != c2.fanin(n):
@@ -157,6 +159,17 @@ def run(chk):
     for fa_, fb_ in (("and", "or"), ("nand", "xor")):
         I_ = ("input", [])
         fams.append((f"wide-gates-over-the-same-nets::{fa_}-and-{fb_}", build({"x": I_, "y": I_, "z": I_, "p": (fa_, ["x", "y", "z"]), "q": (fb_, ["x", "y", "z"]), "o": ("xor", ["p", "q"])}, outputs=["o"])))
+    # two cones sharing logic: the cone of o1 swallows, as interior nodes, a chain of two supergate heads of the other cone (gb <- gc),
+    # both fed by tie cells only (dropped from a minimal cover, they have to come back - with everything THEY read)
+    fams.append(("chain-of-swallowed-heads-fed-by-tie-cells", build({"x": ("input", []), "y": ("input", []), "t0": ("0", []), "t1": ("1", []), "u0": ("1", []), "u1": ("0", []),
+                                                                       "gc": ("xor", ["t0", "t1"]), "gd": ("and", ["u0", "u1"]), "gb": ("and", ["gc", "gd"]), "o2": ("and", ["gb", "x"]),
+                                                                       "o1a": ("and", ["gb", "y"]), "o1b": ("or", ["t0", "y"]), "o1": ("or", ["o1a", "o1b"])}, outputs=["o2", "o1"])))
+    # a circuit that went through limit_fanin(c, 3) before (an earlier pass with a wider bound must not make the decomposition's own
+    # limiting to two inputs skip anything): the result of the repository's own limit_fanin on a 5-input nand and a 6-input xor
+    wide_ = build({**{f"i{j_}": ("input", []) for j_ in range(6)}, "w": ("nand", [f"i{j_}" for j_ in range(5)]), "p": ("xor", [f"i{j_}" for j_ in range(6)]), "o": ("or", ["w", "p"])}, outputs=["o"])
+    r3_ = P.call(FILE, "limit_fanin", wide_, 3)
+    if r3_[0] == "return" and isinstance(r3_[1], RefCircuit):
+        fams.append(("result-of-an-earlier-limit_fanin(c, 3)", r3_[1]))
     fams.append(("tie-cell-operand-of-the-output", build({"a": ("input", []), "k1": ("1", []), "o": ("and", ["a", "k1"])}, outputs=["o"])))
     n = 0
     multi_out = [
